@@ -4,8 +4,14 @@ package rules
 import (
 	"fmt"
 
+	"golang.org/x/tools/go/ssa"
+	"golang.org/x/tools/go/ssa/ssautil"
+
 	"kvcheck/engine"
 )
+
+// ssautilAll returns every function of the program (whole-program loads include dependencies).
+func ssautilAll(p *engine.Prog) map[*ssa.Function]bool { return ssautil.AllFunctions(p.SSA) }
 
 // Ctx carries run options.
 type Ctx struct {
@@ -17,12 +23,13 @@ type Ctx struct {
 
 // Rule is one property's check.
 type Rule struct {
-	ID          string
-	Whole       bool // needs whole-program load in quick tier
-	Run         func(p *engine.Prog, r *engine.Report)
-	Controls    func(p *engine.Prog) []Control
-	Explanation string
-	Assumptions []string
+	ID            string
+	Whole         bool // needs whole-program load in quick tier
+	ThoroughWhole bool // whole-program load in the thorough tier
+	Run           func(p *engine.Prog, r *engine.Report)
+	Controls      func(p *engine.Prog) []Control
+	Explanation   string
+	Assumptions   []string
 }
 
 // Registry maps property ids to their rules.
@@ -36,7 +43,8 @@ func Run(ctx *Ctx, prop string) (*engine.Report, *engine.Prog, error) {
 	if rule == nil {
 		return nil, nil, fmt.Errorf("unknown property %s", prop)
 	}
-	p, err := engine.Load(engine.LoadOptions{RepoDir: ctx.Repo, Overlay: ctx.Overlay, Whole: rule.Whole})
+	whole := rule.Whole || (ctx.Tier == "thorough" && rule.ThoroughWhole)
+	p, err := engine.Load(engine.LoadOptions{RepoDir: ctx.Repo, Overlay: ctx.Overlay, Whole: whole})
 	if err != nil {
 		return nil, nil, err
 	}
